@@ -135,7 +135,7 @@ def fam_suppress(p: Dict[str, Any], problems: List[str], w: World) -> Tuple[str,
     host = w.new_zeroconf()
     zc = host.zc
     heard = p["first"] == "heard"
-    if heard:
+    if heard or p.get("between"):
         # the instance must be an authoritative responder for the type to take note of the question
         register(w, host, make_info(Svc(TA, "own._a._tcp.local.", "own.local.", 80, b"", [bytes([10, 0, 0, 1])], [])))
         register(w, host, make_info(Svc("_b._tcp.local.", "ownb._b._tcp.local.", "own.local.", 81, b"", [bytes([10, 0, 0, 1])], [])))
@@ -175,6 +175,10 @@ def fam_suppress(p: Dict[str, Any], problems: List[str], w: World) -> Tuple[str,
         qs = {"single": [("Q", TA, 12, 1)], "ours-first": [("Q", TA, 12, 1), ("Q", "_b._tcp.local.", 12, 1)],
               "ours-last": [("Q", "_b._tcp.local.", 12, 1), ("Q", "ownb._b._tcp.local.", 33, 1), ("Q", TA, 12, 1)],
               "ours-after-qu": [("Q", "_b._tcp.local.", 12, 0x8001), ("Q", TA, 12, 1)]}[p.get("heard_q", "single")]
+        if p.get("other_ka"):
+            # the query's other question comes with a known answer of its own - this instance's own pointer for that type,
+            # a record it certainly knows: the list still holds nothing it does not know
+            first_ka = first_ka + [("PTR", "_b._tcp.local.", 1, 4500, "ownb._b._tcp.local.")]
         if p.get("heard_split"):
             # the heard query arrives as a truncated train: questions + part of the known answers (TC set), then the rest;
             # whatever this instance does not know travels in the FIRST datagram, the last one holds only records it knows
@@ -210,6 +214,11 @@ def fam_suppress(p: Dict[str, Any], problems: List[str], w: World) -> Tuple[str,
 
         loop.call_at((t1 - 20) / 1000, start_first)
         loop.call_at((t1 + 0.3) / 1000, after_first)
+    if p.get("between"):
+        # between the two askers another neighbour asks the same question with a known answer this instance does not know;
+        # that hearing suppresses nothing, and it does not undo what was asked or heard before it
+        loop.call_at((t1 + p["between"]) / 1000, inject,
+                     wire.query([("Q", TA, 12, 1)], answers=list(base) + [own_ptr, ptr(8, 4500)], id_=79), "10.0.0.62")
     second_type = {"QM": DNSQuestionType.QM, "QU": DNSQuestionType.QU, None: None}[p["second"]]
 
     def start_second() -> None:
@@ -421,6 +430,14 @@ def points(tier: str) -> List[Dict[str, Any]]:
                         for hq in ("ours-first", "ours-last", "ours-after-qu"):
                             pts.append({"fam": "suppress", "first": first, "gap": gap, "rel": rel, "second": second,
                                         "heard_q": hq})
+                            if gap in (500, 999, 1000):
+                                pts.append({"fam": "suppress", "first": first, "gap": gap, "rel": rel, "second": second,
+                                            "heard_q": hq, "other_ka": True})
+                    if first in ("heard", "own") and second == "QM" and gap in (500, 999, 1000, 1001):
+                        for b in (1, 200, gap - 1):
+                            if 0 < b < gap:
+                                pts.append({"fam": "suppress", "first": first, "gap": gap, "rel": rel, "second": second,
+                                            "between": b})
     for srv, txt in (("crossing", "absent"), ("crossing", "fresh"), ("fresh", "crossing"), ("crossing", "crossing")):
         for timeout in (1000, 3000):
             for jit in (0.0, 1.0):
